@@ -23,6 +23,11 @@ Engine E1 (smallscope).  Enumerated (see jv/c13_cat.py):
     subclass with __missing__) reached directly, as an attribute and nested in plain
     containers x present/absent literal subscripts, iteration, len, not; additional oracle:
     the content of every live container is the same before and after each safe-mode query;
+  * dict-key completion inside subscript brackets (`d['`, `d["al`, `d['al|']`, `d[`,
+    `d['alpha'][`, through attribute / list / dict / variable) for dict, OrderedDict,
+    defaultdict and dict subclasses overriding __iter__(+__next__)/keys/__getitem__/__len__/
+    __contains__ (class statement and type()-created); descriptor shapes whose descriptor TYPE
+    only inherits __get__/__set__ (property subclass, subclass of a descriptor class);
   * container graph: dict/list/tuple nested two deep, instances, SimpleNamespace holding builtin
     values, functions, classes, instances of type()-created classes: every attribute/index
     path up to the tier's length.
@@ -293,6 +298,180 @@ def _work_std(task, fails, stats, only):
                                              'after': {n: after[n] for n in changed},
                                              'expected': 'the live namespace objects keep '
                                                          'their content in safe mode'}})
+    return len(qs)
+
+
+# --------------------------------------------------------------------------------------------
+# dict-key completion inside subscript brackets: name['  name["al  box[0]['  ...
+# --------------------------------------------------------------------------------------------
+KEYS_SOURCE = cat.PRELUDE + '''
+import collections as _c
+
+
+class KIter:
+    def __init__(self, it):
+        self.it = it
+
+    def __iter__(self):
+        _hit('__iter__/KIter')
+        return self
+
+    def __next__(self):
+        _hit('__next__/KIter')
+        return next(self.it)
+
+
+def _k_iter(self):
+    _hit('__iter__/' + type(self).__name__)
+    return KIter(dict.__iter__(self))
+
+
+def _k_keys(self):
+    _hit('keys/' + type(self).__name__)
+    return dict.keys(self)
+
+
+def _k_getitem(self, key):
+    _hit('__getitem__/' + type(self).__name__)
+    return dict.__getitem__(self, key)
+
+
+def _k_len(self):
+    _hit('__len__/' + type(self).__name__)
+    return dict.__len__(self)
+
+
+def _k_contains(self, key):
+    _hit('__contains__/' + type(self).__name__)
+    return dict.__contains__(self, key)
+
+
+class KDict(dict):
+    __iter__ = _k_iter
+    keys = _k_keys
+    __getitem__ = _k_getitem
+    __len__ = _k_len
+    __contains__ = _k_contains
+
+
+class IDict(dict):
+    def __iter__(self):
+        _hit('__iter__/IDict')
+        return KIter(dict.__iter__(self))
+
+
+class GDict(dict):
+    def __getitem__(self, key):
+        _hit('__getitem__/GDict')
+        return dict.__getitem__(self, key)
+
+    def __len__(self):
+        _hit('__len__/GDict')
+        return dict.__len__(self)
+
+    def __contains__(self, key):
+        _hit('__contains__/GDict')
+        return dict.__contains__(self, key)
+
+
+class KODict(_c.OrderedDict):
+    __iter__ = _k_iter
+
+
+KDyn = type('KDyn', (dict,), {'__iter__': _k_iter, 'keys': _k_keys, '__getitem__': _k_getitem,
+                              '__len__': _k_len, '__contains__': _k_contains})
+IDyn = type('IDyn', (dict,), {'__iter__': _k_iter})
+
+
+class Holder:
+    pass
+
+
+def _content():
+    return {'alpha': Leaf(), 'beta': 1, 'al pha': 's', 3: 2.5}
+
+
+def _factory():
+    _hit('__call__/_factory')
+    return Leaf()
+
+
+plaind = _content()
+kd = KDict(_content())
+idict = IDict(_content())
+gd = GDict(_content())
+kod = KODict(_content())
+kdyn = KDyn(_content())
+idyn = IDyn(_content())
+od = _c.OrderedDict(_content())
+dd = _c.defaultdict(_factory, _content())
+_ALL = dict(plaind=plaind, kd=kd, idict=idict, gd=gd, kod=kod, kdyn=kdyn, idyn=idyn, od=od,
+            dd=dd)
+holder = Holder()
+for _n, _o in _ALL.items():
+    setattr(holder, _n, _o)
+box = list(_ALL.values())
+nest = {'d': dict(_ALL)}
+
+
+def _state():
+    return {n: sorted(repr(k) for k in dict.keys(o)) for n, o in _ALL.items()}
+'''
+KEYS_NAMES = ['plaind', 'kd', 'idict', 'gd', 'kod', 'kdyn', 'idyn', 'od', 'dd']
+# (id, text typed after the object expression, cursor offset from the end of that text)
+KEYS_TAILS = [("['", "['", 0), ('["al', '["al', 0), ("['alpha", "['alpha", 0), ('[', '[', 0),
+              ("['be", "['be", 0), ("['al']", "['al']", -2), ("['']", "['']", -2),
+              ('[3', '[3', 0), ("['alpha'][", "['alpha'][", 0)]
+
+
+def keys_queries(name, tier):
+    roots = [('direct', name), ('attr', 'holder.' + name),
+             ('inl', 'box[%d]' % KEYS_NAMES.index(name)), ('ind', "nest['d']['%s']" % name),
+             ('var', None)]
+    out = []
+    for rid, T in roots:
+        for tid, tail, off in KEYS_TAILS:
+            if tier == 'quick' and rid != 'direct' and tid not in ("['", '["al', "['al']"):
+                continue        # every tail on the direct name, the main ones elsewhere
+            code = ('v_ = %s\nv_' % name if T is None else T) + tail
+            line, col = _end(code)
+            methods = [('complete', {})]
+            if tier == 'thorough' or rid == 'direct':
+                methods += [('complete', {'fuzzy': True}), ('infer', {}), ('goto', {}),
+                            ('help', {}), ('get_signatures', {})]
+            for m, kw in methods:
+                out.append({'id': '%s|%s|%s%s' % (rid, tid, m, _kwid(kw)), 'code': code,
+                            'method': m, 'kw': kw, 'pos': [line, col + off], 'deep': False,
+                            'head': rid == 'direct' and m == 'complete' and not kw})
+    return out
+
+
+def _work_keys(task, fails, stats, only):
+    """Key completion on one dict-like object: counters + unchanged content."""
+    graph = cat.build(KEYS_SOURCE, task['variant'],
+                      os.path.join(boot.scratch_root(), 'c13mods-%d' % os.getpid()))
+    ns = graph.namespace()
+    qs = keys_queries(task['name'], task['tier'])
+    for unsafe in (False, True):
+        for q in qs:
+            if unsafe and (not q['head'] or only):
+                continue
+            if only and [q['id'], unsafe] != list(only):
+                continue
+            before = graph.module._state()
+            r = _check(graph, ns, q, unsafe, {'alpha', 'beta'}, fails, stats)
+            if q['method'] == 'complete' and r['names']:
+                _bump(stats['key_completions'], task['name'], len(r['names']))
+            after = graph.module._state()
+            if after != before and not unsafe:
+                changed = sorted(n for n in after if after[n] != before[n])
+                fails.append({'site': 'state-mutated:%s' % '+'.join(changed), 'q': q,
+                              'unsafe': False,
+                              'detail': {'code': q['code'], 'method': q['method'],
+                                         'pos': q['pos'], 'mode': 'safe',
+                                         'before': {n: before[n] for n in changed},
+                                         'after': {n: after[n] for n in changed},
+                                         'expected': 'live content unchanged in safe mode'}})
     return len(qs)
 
 
@@ -852,7 +1031,7 @@ def run_query(graph, ns, q, unsafe, interesting=()):
         try:
             it = jedi.Interpreter(q['code'], [ns], path=path, project=project)
             m = q['method']
-            line, col = _end(q['code'])
+            line, col = q['pos'] if q.get('pos') else _end(q['code'])
             if m in ('get_names', 'search', 'complete_search'):
                 res = list(getattr(it, m)(**q['kw']))
             elif m == 'extract_variable':
@@ -937,7 +1116,8 @@ def _check(graph, ns, q, unsafe, interesting, fails, stats, oracle=None):
 def _new_stats():
     return {'queries': 0, 'by_method': {}, 'touch_excs': {}, 'other_excs': {}, 'hits_safe': {},
             'hits_unsafe': {}, 'dir_checks': 0, 'class_checks': 0, 'classes': {},
-            'plain_paths': 0, 'histories': 0, 'mutations_safe': {}, 'mutations_unsafe': {}}
+            'plain_paths': 0, 'histories': 0, 'mutations_safe': {}, 'mutations_unsafe': {},
+            'key_completions': {}}
 
 
 def _graph_for(task):
@@ -983,6 +1163,9 @@ def _work(task):
     fails = []
     stats = _new_stats()
     only = task.get('only')     # replay: a single (query id, unsafe)
+    if task['family'] == 'keys':
+        n = _work_keys(task, fails, stats, only)
+        return {'fails': fails, 'stats': stats, 'nq': n, 'npq': 0}
     if task['family'] == 'std':
         n = _work_std(task, fails, stats, only)
         return {'fails': fails, 'stats': stats, 'nq': n, 'npq': 0}
@@ -1039,7 +1222,7 @@ def _work(task):
 # --------------------------------------------------------------------------------------------
 # explorer
 # --------------------------------------------------------------------------------------------
-def _shape_tasks(tier, shapes, variants, shadow=False, **conf):
+def _shape_tasks(tier, shapes, variants, shadow=False, inherit=False, **conf):
     base = {'family': 'shape', 'tier': tier, 'full': False, 'battery': 'L2', 'other': 'L1',
             'side': 'L1', 'side_other': 'skip', 'roots': ['obj', 'C'],
             'plain_roots': ['obj', 'C'], 'plain_len': 1}
@@ -1047,7 +1230,7 @@ def _shape_tasks(tier, shapes, variants, shadow=False, **conf):
     out = []
     for s in shapes:
         for v in variants:
-            t = dict(base, shape=cat.shape_id(s, shadow), variant=v)
+            t = dict(base, shape=cat.shape_id(s, shadow, inherit), variant=v)
             if v != 'file' and not conf.get('side_everywhere'):
                 # reached through a container a findable object is a pure CompiledValue; for
                 # the other variants it is one already: the side roots only go with 'file'
@@ -1088,6 +1271,21 @@ def _levels(tier):
                     # findable classes make every query ~4x dearer (collections is analysed
                     # statically): quick keeps 'file' for the containers with a user factory
                     if tier == 'thorough' or v == 'exec' or n in ('ddobj', 'ddfn', 'md')]))
+    levels.append(('dict-key completion inside brackets: dict, dict/OrderedDict subclasses '
+                   '(class and type()-created), OrderedDict, defaultdict x {file,exec}',
+                   [{'family': 'keys', 'tier': tier, 'name': n, 'variant': v}
+                    for v in fe for n in KEYS_NAMES]))
+    descr_i = [sh for sh in singles if sh[0][0] in ('P', 'ND', 'DD', 'MP')]
+    levels.append(('descriptor singles whose descriptor type only inherits __get__/__set__ '
+                   '(property subclass, subclass of a descriptor class) x {file,exec}',
+                   [t for t in _shape_tasks(tier, descr_i, fe, inherit=True, other='skip',
+                                            battery='L2' if tier == 'quick' else 'B')
+                    # quick: source-backed classes only for the placement on the class itself
+                    if tier == 'thorough' or t['variant'] == 'exec' or '@cls' in t['shape']]))
+    levels.append(('the same, shadowed in the instance dict x {exec}',
+                   _shape_tasks(tier, [sh for sh in descr_i if sh[0][1] != 'meta'
+                                       and sh[0][0] != 'MP'], ['exec'], shadow=True,
+                                inherit=True, roots=['obj'], plain_roots=['obj'])))
     side = ['obj', 'C', 'box0', 'box1']
     if tier == 'quick':
         levels.append(('singles x {file,exec}: relevant expressions, battery on heads',
@@ -1131,6 +1329,8 @@ def _task_id(t):
         return '%s|%s' % (t['shape'], t['variant'])
     if t['family'] == 'sub':
         return 'sub|%s' % t['variant']
+    if t['family'] == 'keys':
+        return 'keys|%s|%s' % (t['name'], t['variant'])
     if t['family'] == 'std':
         return 'std|%s|%s' % (t['name'], t['variant'])
     if t['family'] == 'hist':
@@ -1189,6 +1389,7 @@ def run(ctx):
                 '(reported name, kind) values confirmed by the infer oracle + distinct query '
                 'methods exercised',
         'graphs': graphs, 'histories': agg['histories'],
+        'dict_key_completions_offered': agg['key_completions'],
         'live_container_mutations_safe_mode': agg['mutations_safe'],
         'live_container_mutations_unsafe_mode': agg['mutations_unsafe'],
         'levels_completed': done, 'exhaustive': exhaustive, 'samples': samples,
